@@ -28,14 +28,14 @@ def gen(rng, tier, n):
     ops = []
     while len(ops) < n:
         r0 = rng.random()
-        if r0 < 0.08:
+        if r0 < 0.14:
             # one Validate call that reaches one $dynamicRef through several dynamic scopes (sibling properties, ranged in random order)
-            o = c06.fork(rng) if rng.random() < 0.4 else c06.topo(rng)
+            o = c06.fork(rng) if rng.random() < 0.25 else c06.topo(rng, decoy_p=0.85)
             ops.append({"op": "purity", "args": {"schema": o["args"]["schema"], "docs": o["args"]["docs"], "base": o["args"]["base"],
                                                   "insts": rng.sample(o["args"]["insts"], min(10, len(o["args"]["insts"])))},
                         "meta": {"kw": 5, "dynamic": True}})
             continue
-        if r0 < 0.2:
+        if r0 < 0.26:
             # Marshal on Schema values (PropertyOrder with names that are not properties, nested schemas, Extra): bytes stable, value untouched
             if rng.random() < 0.25:
                 o = c19.alias_case(rng, rng.sample(c19.NAMES, rng.randint(2, 4)))
